@@ -159,7 +159,6 @@ def run(tier):
         configs_if_differs = [("wr", 2, "A_WR", (1, 1, 1)), ("ww", 2, "A_WW", (1, 1, 1))]
         specs = [
             ("dfs_a_wr", {"progs": PROGS["A_WR"], "preempt": 3, "max_runs": 1500, "spur": 1, "eintr": 1, "weak": 1, "graph": "wr"}),
-            ("dfs_a_ww", {"progs": PROGS["A_WW"], "preempt": 2, "max_runs": 1500, "spur": 1, "eintr": 1, "weak": 1, "graph": "ww"}),
             ("dfs_wr", {"progs": PROGS["B_1"], "preempt": 2, "max_runs": 2500, "spur": 0, "eintr": 0, "weak": 0}),
             ("dfs_try", {"progs": PROGS["B_2"], "preempt": 2, "max_runs": 1500, "spur": 1, "eintr": 0, "weak": 1}),
             ("dfs_wwr", {"progs": PROGS["C_WWR"], "preempt": 2, "max_runs": 2500, "spur": 0, "eintr": 0, "weak": 0}),
